@@ -16,8 +16,8 @@ EXTENDS Mul, TLC, FiniteSets
 VARIABLES kind, s, u, a
 
 FP   == 0..(P - 1)
-Aff  == {<<x, y>> \in FP \X FP : (y * y) % P = (x * x * x + B) % P}
-Pts  == Aff \cup {Inf}
+Aff  == TLCEval({<<x, y>> \in FP \X FP : (y * y) % P = (x * x * x + B) % P})
+Pts  == TLCEval(Aff \cup {Inf})
 ZN   == 0..(N - 1)
 (* reference multiplication by repeated addition, independent of Group!EcMul *)
 RECURSIVE RefMul(_, _)
